@@ -16,7 +16,7 @@ def canon(x):
     return json.dumps(x, sort_keys=True, separators=(",", ":"), default=str)
 
 
-def explore(ad, max_depth=8, max_nodes=200000, audit_rng=None, audit_pairs=25):
+def explore(ad, max_depth=8, max_nodes=200000, audit_rng=None, audit_pairs=60):
     root = ad.make()
     norm = getattr(ad, "norm_obs", None) or (lambda o: o)
     key = getattr(ad, "key", None) or (lambda w: canon(ad.project(w)))
@@ -53,7 +53,7 @@ def explore(ad, max_depth=8, max_nodes=200000, audit_rng=None, audit_pairs=25):
             leaf = k in seen
             cid = len(nodes)
             if leaf:
-                if audit_rng is not None and audit_rng.random() < 0.02 and len(merged) < 400:
+                if audit_rng is not None and audit_rng.random() < 0.05 and len(merged) < 1500:
                     merged.append((seen[k], nd["path"] + [a]))
             else:
                 seen[k] = cid
@@ -70,7 +70,9 @@ def explore(ad, max_depth=8, max_nodes=200000, audit_rng=None, audit_pairs=25):
     witnesses = []
     if audit_rng is not None and merged:
         audit_rng.shuffle(merged)
-        for kept, path in merged[:audit_pairs]:
+        for pi, (kept, path) in enumerate(merged):
+            if pi >= audit_pairs and (audit_fail is None or len(witnesses) >= 400):
+                break              # once a discrepancy is known the audit escalates to every sampled pair (hidden state: look for harmful uses of it)
             w0 = ad.make()
             for x in nodes[kept]["path"]:
                 ad.apply(w0, x)
@@ -87,7 +89,7 @@ def explore(ad, max_depth=8, max_nodes=200000, audit_rng=None, audit_pairs=25):
                 if canon(norm(o1)) != canon(norm(o2)) or k1 != k2:
                     if audit_fail is None:
                         audit_fail = {"kept": nodes[kept]["path"], "merged": path, "act": a, "obs": [o1, o2], "keys": [k1, k2]}
-                    if len(witnesses) < 60:
+                    if len(witnesses) < 400:
                         witnesses.append(path + [a])
                         witnesses.append(nodes[kept]["path"] + [a])
     header = {"cf": nodes[0]["cf"], "cl": nodes[0]["cl"], "root": rootproj}
